@@ -16,6 +16,7 @@ type loopInfo struct {
 	ordinal int
 	spec    *LoopSpec
 	rangeIx *ssa.Alloc
+	headState *State
 }
 
 type retInfo struct {
@@ -481,14 +482,13 @@ func (fr *Frame) enterLoop(li *loopInfo, st *State) {
 		fc.assume(st, fc.typeInv(v, et, 0))
 	}
 	oldNext := st.nextID
+	preLoop := st.clone()
 	st.nextID = fc.fresh("nid", SInt, nil)
 	fc.assume(st, mk(fmt.Sprintf("(>= %s %s)", st.nextID.S, oldNext.S), SBool, nil))
 	if all {
 		comps = fc.sortedComps()
 	}
-	for _, c := range comps {
-		fr.havocComp(st, c)
-	}
+	fr.havocComps(st, comps, preLoop)
 	for _, a := range locals {
 		et := a.Type().(*types.Pointer).Elem()
 		fc.assume(st, fc.allocInv(st.locals[a], et, st.nextID, 0))
@@ -502,11 +502,50 @@ func (fr *Frame) enterLoop(li *loopInfo, st *State) {
 			}
 		}
 	}
+	li.headState = st.clone()
+	fc.note(fmt.Sprintf("loop %d of %s is at %s", li.ordinal, funcKey(fr.fn), fc.posStr(loopPos(li))))
+}
+
+func loopPos(li *loopInfo) token.Pos {
+	for _, in := range li.head.Instrs {
+		if in.Pos().IsValid() {
+			return in.Pos()
+		}
+	}
+	for b := range li.blocks {
+		for _, in := range b.Instrs {
+			if in.Pos().IsValid() {
+				return in.Pos()
+			}
+		}
+	}
+	return token.NoPos
+}
+
+// havocComps havocs a write set; components marked "~" are written only at locations
+// allocated after 'bound', so everything that existed before keeps its value.
+func (fr *Frame) havocComps(st *State, comps []string, pre *State) {
+	fc := fr.fc
+	for _, c := range comps {
+		if !strings.HasPrefix(c, "~") {
+			fr.havocComp(st, c)
+			continue
+		}
+		name := c[1:]
+		if _, ok := fc.comps[name]; !ok {
+			continue
+		}
+		old := fc.comp(pre, name)
+		fr.havocComp(st, name)
+		cur := st.heap[name]
+		fc.usesRootid = true
+		fc.emit(fmt.Sprintf("(assert (forall ((q Ptr)) (! (=> (< (rootid q) %s) (= (select %s q) (select %s q))) :pattern ((select %s q)))))", pre.nextID.S, cur.S, old.S, cur.S))
+	}
 }
 
 func (fr *Frame) havocComp(st *State, c string) {
 	fc := fr.fc
-	if strings.HasPrefix(c, "FX_") {
+	if strings.HasPrefix(c, "FX_") || strings.HasPrefix(c, "~") {
 		return // effect markers are not heap components
 	}
 	sortS := fc.comps[c]
@@ -615,6 +654,22 @@ func (fr *Frame) checkBackEdges() {
 					name += fmt.Sprintf(".e%d", ei+1)
 				}
 				fc.addObligation(ns, "invariant", fr.oblName(name), t, to.Instrs[0].Pos(), inv.Src)
+			}
+			for k, be := range ls.BackEdge {
+				env.head = li.headState
+				t, err := fc.evalGoal(env, be)
+				if err != nil {
+					fc.unsupp(to.Instrs[0].Pos(), "loop %d backedge clause %d: %v", li.ordinal, k+1, err)
+					continue
+				}
+				name := fmt.Sprintf("loop%d.backedge%d", li.ordinal, k+1)
+				if be.Label != "" {
+					name = fmt.Sprintf("loop%d.backedge.%s", li.ordinal, be.Label)
+				}
+				if len(fr.backStates[to]) > 1 {
+					name += fmt.Sprintf(".e%d", ei+1)
+				}
+				fc.addObligation(ns, "iteration", fr.oblName(name), t, to.Instrs[0].Pos(), be.Src)
 			}
 		}
 	}
